@@ -63,37 +63,41 @@ def lib_FloatHourToHMS (fh : Rat) : Option GoSem.HMS := do
   let total := (GoSem.ftoi ((Rat.floor ((fh * ((3600 : Rat) / 1)) + ((1 : Rat) / 2)) : Int) : Rat))
   pure ({ Hour := (GoSem.u8 (Int.tdiv total 3600)), Minute := (GoSem.u8 (Int.tmod (Int.tdiv total 60) 60)), Second := (GoSem.u8 (Int.tmod total 60)) } : GoSem.HMS)
 
--- NOT TRANSLATED: julian_IsLeap (cal_types/julian/julian.go:114): binary operator &
+/-- cal_types/julian/julian.go:114 -/
+def julian_IsLeap (year : Int) : Option Bool := do
+  pure (decide ((Int.tmod year 4) = 0))
 
-/-- cal_types/julian/julian.go:121 -/
+/-- cal_types/julian/julian.go:118 -/
 def julian_getYearDays (month : Int) (leap : Bool) : Option Int := do
-  let daysBefore ← (GoSem.idx julian_monthLenSum (GoSem.u8 (month - 1)))
-  if ((!leap) || (decide (month > 2))) then
-    pure daysBefore
-  else
-    pure (daysBefore - 1)
+  let ydays ← (GoSem.idx julian_monthLenSum (GoSem.u8 (month - 1)))
+  let ydays ← (do
+    if (leap && (decide (month < 3))) then
+      let ydays := (ydays - 1)
+      pure ydays
+    else
+      pure ydays
+    )
+  pure ydays
 
-/-- cal_types/julian/julian.go:129 -/
+/-- cal_types/julian/julian.go:127 -/
 def julian_getMonthDayFromYdays (yDays : Int) (leap : Bool) : Option (Int × Int) := do
-  let month := 12
+  let month := 1
   let month ← GoSem.whileFuel GoSem.fuel
-    (fun month => do (do if (decide (month > 1)) then pure (decide (yDays ≤ (← (julian_getYearDays month leap)))) else pure false))
+    (fun month => do (do if (decide (month < 12)) then pure (decide (yDays > (← (julian_getYearDays (GoSem.u8 (month + 1)) leap)))) else pure false))
     (fun month => do
-      let month := (GoSem.u8 (month - 1))
+      let month := (GoSem.u8 (month + 1))
       pure month
     )
     month
   let day := (GoSem.u8 (yDays - (← (julian_getYearDays month leap))))
   pure (month, day)
 
-/-- cal_types/julian/julian.go:140 -/
+/-- cal_types/julian/julian.go:137 -/
 def julian_ToJd (date : GoSem.Date) : Option Int := do
   let (quadCount, yMode) ← (utils_Divmod (date).Year 4)
-  let leap := (decide (yMode = 0))
-  let yearStart := ((1721058 + (1461 * quadCount)) + (365 * yMode))
-  pure ((yearStart + (← (julian_getYearDays (date).Month leap))) + (date).Day)
+  pure ((((1721058 + (1461 * quadCount)) + (365 * yMode)) + (← (julian_getYearDays (date).Month (decide (yMode = 0))))) + (date).Day)
 
-/-- cal_types/julian/julian.go:147 -/
+/-- cal_types/julian/julian.go:146 -/
 def julian_JdTo (jd : Int) : Option GoSem.Date := do
   let (quadCount, quadDays) ← (utils_Divmod (jd - 1721058) 1461)
   if (decide (quadDays = 0)) then
@@ -105,24 +109,34 @@ def julian_JdTo (jd : Int) : Option GoSem.Date := do
     let (month, day) ← (julian_getMonthDayFromYdays yDays (decide (yMode = 0)))
     (SrcExt.lib_NewDate year month day)
 
--- NOT TRANSLATED: julian_GetMonthLen (cal_types/julian/julian.go:163): calls julian_IsLeap, which is not translated
+/-- cal_types/julian/julian.go:162 -/
+def julian_GetMonthLen (year : Int) (month : Int) : Option Int := do
+  if (decide (month = 2)) then
+    let _c1 ← (julian_IsLeap year)
+    if _c1 then
+      pure 29
+    else
+      pure 28
+  else
+    (GoSem.idx julian_monthLen (GoSem.u8 (month - 1)))
 
-/-- cal_types/jalali/jalali.go:119 -/
+/-- cal_types/jalali/jalali.go:116 -/
 def jalali_IsLeap (alg2820 : Bool) (year : Int) : Option Bool := do
   if alg2820 then
-    let cycleYear ← (utils_Mod (year - 474) 2820)
-    pure (decide ((Int.tmod (cycleYear * 682) 2816) < 682))
+    pure (decide ((← (utils_Mod ((← (utils_Mod (year - 474) 2820)) * 682) 2816)) < 682))
   else
-    let periodYear ← (utils_Mod (year - 979) 33)
-    pure ((decide ((Int.tmod periodYear 4) = 0)) && (decide (periodYear ≠ 32)))
+    let jy := (year - 979)
+    let (jyd, jym) ← (utils_Divmod jy 33)
+    let (jyd2, jym2) ← (utils_Divmod (jy + 1) 33)
+    pure (decide (1 = ((((jyd2 - jyd) * 8) + (Int.tdiv (jym2 + 3) 4)) - (Int.tdiv (jym + 3) 4))))
 
-/-- cal_types/jalali/jalali.go:164 -/
+/-- cal_types/jalali/jalali.go:163 -/
 def jalali_getMonthDayFromYdays (yday : Int) : Option (Int × Int) := do
   let month := (GoSem.u8 (← (SrcExt.utils_BisectLeft jalali_monthLenSum yday)))
   let day := (GoSem.u8 (yday - (← (GoSem.idx jalali_monthLenSum (GoSem.u8 (month - 1))))))
   pure (month, day)
 
-/-- cal_types/jalali/jalali.go:137 -/
+/-- cal_types/jalali/jalali.go:133 -/
 def jalali_ToJd (alg2820 : Bool) (date : GoSem.Date) : Option Int := do
   if alg2820 then
     let epbase := ((date).Year - 474)
@@ -132,12 +146,10 @@ def jalali_ToJd (alg2820 : Bool) (date : GoSem.Date) : Option Int := do
     pure ((((((((date).Day + (mm * 30)) + (← (utils_IntMin 6 mm))) + (← (utils_Div ((epyear * 682) - 110) 2816))) + ((epyear - 1) * 365)) + (epbase_d * 1029983)) + 1948321) - 1)
   else
     let jy := ((date).Year - 979)
-    let (period, periodYear) ← (utils_Divmod jy 33)
-    let leapDays := ((8 * period) + (Int.tdiv (periodYear + 3) 4))
-    let yearStart := (((365 * jy) + leapDays) + 2305527)
-    pure (((yearStart + (← (GoSem.idx jalali_monthLenSum (GoSem.u8 ((date).Month - 1))))) + (date).Day) - 1)
+    let (jyd, jym) ← (utils_Divmod jy 33)
+    pure ((((((((365 * jy) + (jyd * 8)) + (← (utils_Div (jym + 3) 4))) + (← (GoSem.idx jalali_monthLenSum (GoSem.u8 ((date).Month - 1))))) + (date).Day) - 1) + 584101) + 1721426)
 
-/-- cal_types/jalali/jalali.go:171 -/
+/-- cal_types/jalali/jalali.go:170 -/
 def jalali_JdTo (alg2820 : Bool) (jd : Int) : Option GoSem.Date := do
   if alg2820 then
     let deltaDays := (jd - (← (jalali_ToJd alg2820 (← (SrcExt.lib_NewDate 475 1 1)))))
@@ -174,28 +186,26 @@ def jalali_JdTo (alg2820 : Bool) (jd : Int) : Option GoSem.Date := do
     let (month_1, day_1) ← (jalali_getMonthDayFromYdays yday_1)
     (SrcExt.lib_NewDate year_1 month_1 day_1)
 
-/-- cal_types/jalali/jalali.go:211 -/
+/-- cal_types/jalali/jalali.go:210 -/
 def jalali_GetMonthLen (alg2820 : Bool) (year : Int) (month : Int) : Option Int := do
-  if (decide (month ≠ 12)) then
-    (GoSem.idx jalali_monthLen (GoSem.u8 (month - 1)))
-  else
+  if (decide (month = 12)) then
     let _c1 ← (jalali_IsLeap alg2820 year)
     if _c1 then
       pure 30
     else
       pure 29
+  else
+    (GoSem.idx jalali_monthLen (GoSem.u8 (month - 1)))
 
 /-- cal_types/ethiopian/ethiopian.go:104 -/
 def ethiopian_IsLeap (year : Int) : Option Bool := do
-  pure (decide ((← (utils_Mod year 4)) = 3))
+  pure (decide ((Int.tmod (year + 1) 4) = 0))
 
-/-- cal_types/ethiopian/ethiopian.go:112 -/
+/-- cal_types/ethiopian/ethiopian.go:108 -/
 def ethiopian_ToJd (date : GoSem.Date) : Option Int := do
-  let yearStart := ((1723855 + (365 * (date).Year)) + (← (utils_Div (date).Year 4)))
-  let monthIndex := (GoSem.u8 ((date).Month - 1))
-  pure ((yearStart + (30 * monthIndex)) + (date).Day)
+  pure (((((1724235 + (365 * ((date).Year - 1))) + (← (utils_Div (date).Year 4))) + ((GoSem.u8 ((date).Month - 1)) * 30)) + (date).Day) - 15)
 
-/-- cal_types/ethiopian/ethiopian.go:118 -/
+/-- cal_types/ethiopian/ethiopian.go:115 -/
 def ethiopian_JdTo (jd : Int) : Option GoSem.Date := do
   let (quad, dquad) ← (utils_Divmod (jd - 1724235) 1461)
   let yindex ← (utils_IntMin 3 (Int.tdiv dquad 365))
@@ -234,36 +244,50 @@ def ethiopian_JdTo (jd : Int) : Option GoSem.Date := do
     )
   (SrcExt.lib_NewDate year (GoSem.u8 month) (GoSem.u8 day))
 
-/-- cal_types/ethiopian/ethiopian.go:145 -/
+/-- cal_types/ethiopian/ethiopian.go:142 -/
 def ethiopian_GetMonthLen (year : Int) (month : Int) : Option Int := do
-  let mLen ← (GoSem.idx ethiopian_monthLens (GoSem.u8 (month - 1)))
-  let _c1 ← (do if (decide (month = 12)) then (ethiopian_IsLeap year) else pure false)
-  let mLen ← (do
+  if (decide (month = 12)) then
+    let _c1 ← (ethiopian_IsLeap year)
     if _c1 then
-      let mLen := (GoSem.u8 (mLen + 1))
-      pure mLen
+      pure 36
     else
-      pure mLen
-    )
-  pure mLen
+      pure 35
+  else
+    (GoSem.idx ethiopian_monthLens (GoSem.u8 (month - 1)))
 
 /-- cal_types/gregorian_proleptic/gregorian_proleptic.go:112 -/
 def gprol_IsLeap (year : Int) : Option Bool := do
   let year ← (do
-    if (decide (year ≤ 0)) then
+    if (decide (year < 1)) then
       let year := (year + 1)
       pure year
     else
       pure year
     )
-  if (decide ((Int.tmod year 400) = 0)) then
-    pure true
-  else
-    pure ((decide ((Int.tmod year 4) = 0)) && (decide ((Int.tmod year 100) ≠ 0)))
+  pure ((decide ((Int.tmod year 4) = 0)) && ((decide ((Int.tmod year 100) ≠ 0)) || (decide ((Int.tmod year 400) = 0))))
 
--- NOT TRANSLATED: gprol_ToJd (cal_types/gregorian_proleptic/gregorian_proleptic.go:129): call of github.com/ilius/libgostarcal/cal_types/gregorian_proleptic.daysBeforeYear (not in the list of translated functions)
+/-- cal_types/gregorian_proleptic/gregorian_proleptic.go:119 -/
+def gprol_ToJd (date : GoSem.Date) : Option Int := do
+  let a := 0
+  let a ← (do
+    if (decide ((date).Month < 3)) then
+      let a := 1
+      pure a
+    else
+      pure a
+    )
+  let y := (((date).Year + 4800) - a)
+  let y ← (do
+    if (decide ((date).Year < 1)) then
+      let y := (y + 1)
+      pure y
+    else
+      pure y
+    )
+  let m := (((date).Month + (12 * a)) - 3)
+  pure (((((((365 * y) + (← (utils_Div y 4))) - (← (utils_Div y 100))) + (← (utils_Div y 400))) - 32045) + (← (utils_Div ((153 * m) + 2) 5))) + (date).Day)
 
-/-- cal_types/gregorian_proleptic/gregorian_proleptic.go:156 -/
+/-- cal_types/gregorian_proleptic/gregorian_proleptic.go:147 -/
 def gprol_JdTo (jd : Int) : Option GoSem.Date := do
   let a := (jd + 32044)
   let b ← (utils_Div ((4 * a) + 3) 146097)
@@ -283,11 +307,14 @@ def gprol_JdTo (jd : Int) : Option GoSem.Date := do
     )
   (SrcExt.lib_NewDate year month day)
 
-/-- cal_types/gregorian_proleptic/gregorian_proleptic.go:181 -/
+/-- cal_types/gregorian_proleptic/gregorian_proleptic.go:172 -/
 def gprol_GetMonthLen (year : Int) (month : Int) : Option Int := do
-  let _c1 ← (do if (decide (month = 2)) then (gprol_IsLeap year) else pure false)
-  if _c1 then
-    pure 29
+  if (decide (month = 2)) then
+    let _c1 ← (gprol_IsLeap year)
+    if _c1 then
+      pure 29
+    else
+      pure 28
   else
     (GoSem.idx gprol_monthLen (GoSem.u8 (month - 1)))
 
@@ -295,9 +322,37 @@ def gprol_GetMonthLen (year : Int) (month : Int) : Option Int := do
 def indian_IsLeap (year : Int) : Option Bool := do
   (SrcExt.gregorian_IsLeap (year + 78))
 
--- NOT TRANSLATED: indian_ToJd (cal_types/indian_national/indian_national.go:98): statement *ast.SwitchStmt
+/-- cal_types/indian_national/indian_national.go:98 -/
+def indian_ToJd (date : GoSem.Date) : Option Int := do
+  let jdFirstDayOfYear := 0
+  let daysInMonth1 := 0
+  let _c1 ← (indian_IsLeap (date).Year)
+  let (jdFirstDayOfYear, daysInMonth1) ← (do
+    if _c1 then
+      let jdFirstDayOfYear ← (SrcExt.gregorian_ToJd (← (SrcExt.lib_NewDate ((date).Year + 78) 3 21)))
+      let daysInMonth1 := 31
+      pure (jdFirstDayOfYear, daysInMonth1)
+    else
+      let jdFirstDayOfYear ← (SrcExt.gregorian_ToJd (← (SrcExt.lib_NewDate ((date).Year + 78) 3 22)))
+      let daysInMonth1 := 30
+      pure (jdFirstDayOfYear, daysInMonth1)
+    )
+  let jd := 0
+  let jd ← (do
+    if (decide ((date).Month = 1)) then
+      let jd := ((jdFirstDayOfYear + (date).Day) - 1)
+      pure jd
+    else
+      if (decide ((date).Month ≤ 6)) then
+        let jd := ((((jdFirstDayOfYear + daysInMonth1) + (((date).Month - 2) * 31)) + (date).Day) - 1)
+        pure jd
+      else
+        let jd := (((((jdFirstDayOfYear + daysInMonth1) + 155) + (((date).Month - 7) * 30)) + (date).Day) - 1)
+        pure jd
+    )
+  pure jd
 
-/-- cal_types/indian_national/indian_national.go:131 -/
+/-- cal_types/indian_national/indian_national.go:136 -/
 def indian_JdTo (jd : Int) : Option GoSem.Date := do
   let year := 0
   let month := 0
@@ -349,7 +404,19 @@ def indian_JdTo (jd : Int) : Option GoSem.Date := do
     )
   (SrcExt.lib_NewDate year (GoSem.u8 month) (GoSem.u8 day))
 
--- NOT TRANSLATED: indian_GetMonthLen (cal_types/indian_national/indian_national.go:183): statement *ast.SwitchStmt
+/-- cal_types/indian_national/indian_national.go:188 -/
+def indian_GetMonthLen (year : Int) (month : Int) : Option Int := do
+  if (decide (month = 1)) then
+    let _c1 ← (indian_IsLeap year)
+    if _c1 then
+      pure 31
+    else
+      pure 30
+  else
+    if ((decide (2 ≤ month)) && (decide (month ≤ 6))) then
+      pure 31
+    else
+      pure 30
 
 /-- cal_types/hijri/hijri.go:244 -/
 def hijri_IsLeap (year : Int) : Option Bool := do
@@ -357,21 +424,27 @@ def hijri_IsLeap (year : Int) : Option Bool := do
 
 /-- cal_types/hijri/hijri.go:248 -/
 def hijri_ToJd (date : GoSem.Date) : Option Int := do
-  let monthsBefore := (GoSem.u8 ((date).Month - 1))
-  let daysBeforeMonth := (Int.tdiv ((59 * monthsBefore) + 1) 2)
-  let daysBeforeYear := ((354 * ((date).Year - 1)) + (← (utils_Div ((11 * (date).Year) + 3) 30)))
-  pure (((1948440 + daysBeforeYear) + daysBeforeMonth) + (date).Day)
+  pure (((((date).Day + (GoSem.ftoi ((Rat.ceil (((59 : Rat) / 2) * (((GoSem.u8 ((date).Month - 1)) : Int) : Rat)) : Int) : Rat))) + (((date).Year - 1) * 354)) + (← (utils_Div ((11 * (date).Year) + 3) 30))) + 1948440)
 
-/-- cal_types/hijri/hijri.go:263 -/
+/-- cal_types/hijri/hijri.go:262 -/
 def hijri_JdTo (jd : Int) : Option GoSem.Date := do
   let year ← (utils_Div ((30 * ((jd - 1) - 1948440)) + 10646) 10631)
   let month := (GoSem.u8 (← (utils_IntMin 12 (GoSem.ftoi ((Rat.ceil (((((jd : Int) : Rat) + ((1 : Rat) / 2)) - (((← (hijri_ToJd (← (SrcExt.lib_NewDate year 1 1)))) : Int) : Rat)) / ((59 : Rat) / 2)) : Int) : Rat)))))
   let day := (GoSem.u8 ((jd - (← (hijri_ToJd (← (SrcExt.lib_NewDate year month 1))))) + 1))
   (SrcExt.lib_NewDate year month day)
 
--- NOT TRANSLATED: hijri_GetMonthLen (cal_types/hijri/hijri.go:282): statement *ast.SwitchStmt
+/-- cal_types/hijri/hijri.go:281 -/
+def hijri_GetMonthLen (year : Int) (month : Int) : Option Int := do
+  if (decide ((Int.tmod month 2) = 1)) then
+    pure 30
+  else
+    let _c1 ← (do if (decide (month = 12)) then (hijri_IsLeap year) else pure false)
+    if _c1 then
+      pure 30
+    else
+      pure 29
 
 /-- the functions translated on this run -/
-def translated : List String := ["utils_Mod", "utils_Div", "utils_Divmod", "utils_IntMin", "utils_GetHmsBySeconds", "lib_GetTotalSeconds", "lib_GetFloatHour", "lib_FloatHourToHMS", "julian_getYearDays", "julian_getMonthDayFromYdays", "julian_ToJd", "julian_JdTo", "jalali_IsLeap", "jalali_getMonthDayFromYdays", "jalali_ToJd", "jalali_JdTo", "jalali_GetMonthLen", "ethiopian_IsLeap", "ethiopian_ToJd", "ethiopian_JdTo", "ethiopian_GetMonthLen", "gprol_IsLeap", "gprol_JdTo", "gprol_GetMonthLen", "indian_IsLeap", "indian_JdTo", "hijri_IsLeap", "hijri_ToJd", "hijri_JdTo"]
+def translated : List String := ["utils_Mod", "utils_Div", "utils_Divmod", "utils_IntMin", "utils_GetHmsBySeconds", "lib_GetTotalSeconds", "lib_GetFloatHour", "lib_FloatHourToHMS", "julian_IsLeap", "julian_getYearDays", "julian_getMonthDayFromYdays", "julian_ToJd", "julian_JdTo", "julian_GetMonthLen", "jalali_IsLeap", "jalali_getMonthDayFromYdays", "jalali_ToJd", "jalali_JdTo", "jalali_GetMonthLen", "ethiopian_IsLeap", "ethiopian_ToJd", "ethiopian_JdTo", "ethiopian_GetMonthLen", "gprol_IsLeap", "gprol_ToJd", "gprol_JdTo", "gprol_GetMonthLen", "indian_IsLeap", "indian_ToJd", "indian_JdTo", "indian_GetMonthLen", "hijri_IsLeap", "hijri_ToJd", "hijri_JdTo", "hijri_GetMonthLen"]
 
 end Starcal.Gen.Src
